@@ -286,6 +286,11 @@ class ExtLib:
         v = args[0]
         if isinstance(v, Arr):
             return self.astype(v, dt, node, ms)
+        wp = getattr(self, "working_precision", None)
+        if wp is not None and wp.name == "float64" and dt.name in ("float32", "float16") and not is_num(simplify_scalar(v)) and is_scalar(v):
+            # a double-precision object that converts a computed scalar to single precision (whichever way the narrower type
+            # was obtained, e.g. a helper's default) no longer works "up to rounding" of its own precision
+            self.I.problem("precision", "a computed value is converted to %s in a double-precision computation" % dt.name, node, ms)
         return v
 
     # ------------------------------------------------------------------ element values
